@@ -1,6 +1,8 @@
 package main
 
 import (
+	"sort"
+	"strconv"
 	"fmt"
 	"go/token"
 	"go/types"
@@ -902,10 +904,9 @@ func (fc *FnCtx) anchorAsserts(d *ssa.DebugRef) {
 	if fc.con == nil || len(fc.con.Asserts) == 0 {
 		return
 	}
-	line := fc.e.srcLine(d.Expr.Pos())
 	for i := range fc.con.Asserts {
 		a := &fc.con.Asserts[i]
-		if !strings.Contains(line, a.Anchor) {
+		if !fc.anchorMatches(a.Anchor, d.Expr.Pos()) {
 			continue
 		}
 		key := fmt.Sprintf("%d@%d", i, fc.e.fset.Position(d.Expr.Pos()).Line)
@@ -988,10 +989,9 @@ func (fc *FnCtx) storedAsserts(x *ssa.Store, v Val) {
 	if vi, ok := x.Val.(ssa.Instruction); ok && vi.Pos().IsValid() {
 		pos = vi.Pos()
 	}
-	line := fc.e.srcLine(pos)
 	for i := range fc.con.Stored {
 		a := &fc.con.Stored[i]
-		if !strings.Contains(line, a.Anchor) {
+		if !fc.anchorMatches(a.Anchor, pos) {
 			continue
 		}
 		if fc.anchorsDone == nil {
@@ -1009,4 +1009,51 @@ func (fc *FnCtx) storedAsserts(x *ssa.Store, v Val) {
 		}
 		fc.oblige("stored", a.C.Label, and(parts...), pos, &a.C)
 	}
+}
+
+// anchorMatches: the source line at pos contains the anchor text.  An anchor "text@N" selects the N-th
+// (1-based, in source order) line of the function that contains text.
+func (fc *FnCtx) anchorMatches(anchor string, pos token.Pos) bool {
+	text, nth := splitAnchor(anchor)
+	if !strings.Contains(fc.e.srcLine(pos), text) {
+		return false
+	}
+	if nth == 0 {
+		return true
+	}
+	ls := fc.anchorLines(text)
+	return nth <= len(ls) && ls[nth-1] == fc.e.fset.Position(pos).Line
+}
+
+func splitAnchor(anchor string) (string, int) {
+	if i := strings.LastIndex(anchor, "@"); i > 0 {
+		if n, err := strconv.Atoi(anchor[i+1:]); err == nil && n > 0 {
+			return anchor[:i], n
+		}
+	}
+	return anchor, 0
+}
+
+// anchorLines: ascending line numbers of the function's instructions whose source line contains text.
+func (fc *FnCtx) anchorLines(text string) []int {
+	seen := map[int]bool{}
+	var out []int
+	for _, b := range fc.fn.Blocks {
+		for _, in := range b.Instrs {
+			p := in.Pos()
+			if d, ok := in.(*ssa.DebugRef); ok {
+				p = d.Expr.Pos()
+			}
+			if !p.IsValid() {
+				continue
+			}
+			ln := fc.e.fset.Position(p).Line
+			if !seen[ln] && strings.Contains(fc.e.srcLine(p), text) {
+				seen[ln] = true
+				out = append(out, ln)
+			}
+		}
+	}
+	sort.Ints(out)
+	return out
 }
